@@ -515,21 +515,22 @@ func frameGoal(a *Term, mods []modItem) *Term {
 
 // inSliceRangeC: like inSliceRange but simplifying when a is a constructor term.
 func inSliceRangeC(a *Term, s *SliceV) *Term {
-	if a.Op == "mkaddr" && a.Args[1].Op == "elem" {
-		idx := a.Args[1].Args[1]
-		return And(Eq(a.Args[0], Rg(s.Base)), mkEqRaw(a.Args[1].Args[0], Pa(s.Base)),
-			BVCmp("bvult", BVBin("bvsub", idx, s.Off), s.Len))
-	}
-	if a.Op == "mkaddr" && (a.Args[1].Op == "fld" || a.Args[1].Op == "pnil") {
-		// could still be a sub-component of an element (composite elements): walk up
+	// a lies in (or under: composite elements, nested arrays) one of the elements s[0:len)
+	if a.Op == "mkaddr" {
+		var alts []*Term
 		cur := a.Args[1]
-		for cur.Op == "fld" {
+		for cur.Op == "fld" || cur.Op == "elem" {
+			if cur.Op == "elem" {
+				idx := cur.Args[1]
+				alts = append(alts, And(Eq(a.Args[0], Rg(s.Base)), mkEqRaw(cur.Args[0], Pa(s.Base)),
+					BVCmp("bvult", BVBin("bvsub", idx, s.Off), s.Len)))
+			}
 			cur = cur.Args[0]
 		}
-		if cur.Op == "elem" {
-			return inSliceRangeC(MkAddr(a.Args[0], cur), s)
+		if cur.Op == "pnil" {
+			return Or(alts...)
 		}
-		return False
+		return Or(append(alts, inSliceRange(a, s))...)
 	}
 	return inSliceRange(a, s)
 }
